@@ -1,15 +1,17 @@
 #!/bin/sh
 # Run once after a fresh restore (offline): full Coq build (never -vos) and
 # first build of all harness binaries against /repo's working tree.
-set -e
+# Failures here are not fatal: every check rebuilds what it needs and reports a
+# broken obligation itself; this script only warms the caches.
 cd "$(dirname "$0")"
 export CARGO_NET_OFFLINE=true
 export CARGO_TARGET_DIR="$PWD/.cache/target"
 mkdir -p .cache
-python3 tools/gen_tables.py || true
+python3 tools/gen_tables.py || echo "WARNING: a translator failed"
 ( cd coq && { echo "-Q . Yv"; find . -name '*.v' | sed 's|^\./||' | sort; } > _CoqProject \
   && coq_makefile -f _CoqProject -o Makefile.coq \
-  && timeout 7200 make -f Makefile.coq -j16 )
+  && timeout 7200 make -k -f Makefile.coq -j16 ) || echo "WARNING: some Coq file did not build"
 cp /repo/Cargo.lock harness/Cargo.lock
-( cd harness && timeout 3600 cargo build --offline --bins )
+( cd harness && timeout 3600 cargo build --offline --bins --keep-going ) || echo "WARNING: some harness binary did not build"
 echo setup done
+exit 0
